@@ -36,6 +36,7 @@ typedef struct {
 
 	size_t padding;
 	bool last_sparse;
+	bool is_compressed;
 } tar_iterator_t;
 
 typedef struct {
@@ -168,6 +169,28 @@ static void strm_destroy(sqfs_object_t *obj)
 
 /*****************************************************************************/
 
+/*
+  A decompressor can only verify the check sums at the end of a compressed
+  stream once it gets there. The end-of-archive marker comes before that.
+ */
+static int drain_compressed_stream(tar_iterator_t *tar)
+{
+	const sqfs_u8 *ptr;
+	size_t size;
+	int ret;
+
+	for (;;) {
+		ret = tar->stream->get_buffered_data(tar->stream, &ptr,
+						     &size, 1);
+		if (ret != 0)
+			break;
+
+		tar->stream->advance_buffer(tar->stream, size);
+	}
+
+	return ret < 0 ? ret : 0;
+}
+
 static int it_next(sqfs_dir_iterator_t *it, sqfs_dir_entry_t **out)
 {
 	tar_iterator_t *tar = (tar_iterator_t *)it;
@@ -240,6 +263,12 @@ retry:
 
 	return 0;
 fail:
+	if (ret > 0 && tar->is_compressed) {
+		int err = drain_compressed_stream(tar);
+		if (err)
+			ret = err;
+	}
+
 	tar->state = ret < 0 ? ret : 1;
 	return tar->state;
 }
@@ -414,6 +443,7 @@ sqfs_dir_iterator_t *tar_open_stream(sqfs_istream_t *strm,
 		return NULL;
 	}
 
+	tar->is_compressed = true;
 	return it;
 out_strm:
 	tar->stream = sqfs_grab(strm);
